@@ -1,11 +1,228 @@
-//! C28 (not built yet)
-use crate::report::{Disagreement, Run};
-use serde_json::Value;
+//! C28 The selection always points at an existing sheet and cell: explicit-state breadth-first search.
 
-pub fn run(run: &mut Run) {
-    run.machinery_errors.push("C28: check not built yet".into());
+use crate::hist;
+use crate::invariants::selection_valid;
+use crate::ops::Op;
+use crate::report::{Disagreement, Run};
+use serde_json::{json, Value};
+use std::collections::{HashSet, VecDeque};
+
+fn s(x: &str) -> String {
+    x.to_string()
 }
 
-pub fn replay(_case: &Value) -> Vec<Disagreement> {
-    vec![]
+pub fn alphabet(thorough: bool) -> Vec<Op> {
+    use Op::*;
+    const LR: i32 = 1_048_576;
+    const LC: i32 = 16_384;
+    let mut v = vec![
+        NewSheet,
+        DeleteSheet(0),
+        DeleteSheet(1),
+        DeleteSheet(2),
+        DuplicateSheet(0),
+        MoveSheet(0, 1),
+        MoveSheet(1, 0),
+        MoveSheet(0, 2),
+        MoveSheet(2, 0),
+        HideSheet(0),
+        HideSheet(1),
+        UnhideSheet(0),
+        UnhideSheet(1),
+        SelSheet(0),
+        SelSheet(1),
+        SelSheet(2),
+        SelCell(3, 2),
+        SelCell(LR, LC),
+        SelRange(2, 2, 4, 3),
+        Arrow(0),
+        Arrow(1),
+        Arrow(2),
+        Arrow(3),
+        PageDown,
+        PageUp,
+        AreaSelecting(5, 4),
+        ExpandRange(s("ArrowDown")),
+        ExpandRange(s("ArrowLeft")),
+        NavEdge(1),
+        NavEdge(3),
+        RowsHidden(0, 2, 3, true),
+        ColsHidden(0, 2, 2, true),
+        Paste(0, 1, 1, 2, 2, 0, 3, 3, false),
+        Undo,
+        Redo,
+    ];
+    if thorough {
+        v.extend(vec![
+            DeleteSheet(3),
+            DuplicateSheet(1),
+            HideSheet(2),
+            UnhideSheet(2),
+            SelSheet(3),
+            SelCell(1, 1),
+            ExpandRange(s("ArrowUp")),
+            ExpandRange(s("ArrowRight")),
+            NavEdge(0),
+            NavEdge(2),
+            RowsHidden(0, 1, 1, true),
+            ColsHidden(0, 1, 1, true),
+            PasteStyles(0, 2, 2, 2, 2),
+            Paste(0, 1, 1, 1, 1, 1, 2, 2, true),
+            InsertRows(0, 1, 1),
+            DeleteCols(0, 1, 1),
+        ]);
+    }
+    v
+}
+
+/// key of a state: the whole workbook (incl. views) + which recording operations are on the undo/redo stacks
+fn key_of(um: &ironcalc_base::UserModel, word: &[Op], pushed: &[bool]) -> u128 {
+    let (u, r) = um.verif_history_depths();
+    let rec: Vec<String> = word
+        .iter()
+        .zip(pushed.iter())
+        .filter(|(_, p)| **p)
+        .map(|(o, _)| format!("{:?}", o))
+        .collect();
+    let k = crate::obs::state_key(um.get_model());
+    crate::env::digest(&format!("{:x}|{}|{}|{:?}", k, u, r, rec))
+}
+
+/// Replays `word` (errors allowed: a failed op is a step like any other); returns model, per-op pushed flags.
+fn build(seed: &'static str, word: &[Op]) -> Result<(ironcalc_base::UserModel<'static>, Vec<bool>, Vec<bool>), String> {
+    let mut um = crate::seeds::load(seed);
+    let mut pushed = vec![];
+    let mut oks = vec![];
+    for op in word {
+        let d0 = um.verif_history_depths();
+        let r = crate::env::guarded(|| op.apply(&mut um))?;
+        let d1 = um.verif_history_depths();
+        // an op "records" if the undo stack grew; undo/redo themselves move entries and are part of the key through depths
+        pushed.push(d1.0 > d0.0 && !matches!(op, Op::Redo));
+        oks.push(r.is_ok());
+    }
+    Ok((um, pushed, oks))
+}
+
+fn check(seed: &'static str, word: &[Op]) -> (Vec<Disagreement>, Option<u128>) {
+    let case = hist::case_json(seed, word);
+    let mut ds = vec![];
+    match build(seed, word) {
+        Err(p) => {
+            ds.push(Disagreement {
+                sig: format!("panic op={} at={}", word.last().map(|o| o.kind()).unwrap_or(""), p.split(" @ ").last().unwrap_or("")),
+                case,
+                detail: p,
+            });
+            (ds, None)
+        }
+        Ok((um, pushed, oks)) => {
+            let last = word.last();
+            let ok = oks.last().copied().unwrap_or(true);
+            for (class, text) in selection_valid(um.get_model()) {
+                ds.push(Disagreement {
+                    sig: format!("selection={} after={}{}", class, last.map(|o| o.kind()).unwrap_or("seed"), if ok { "" } else { "(Err)" }),
+                    case: case.clone(),
+                    detail: format!("after {:?}: {}", last, text),
+                });
+            }
+            // the public getters must agree with an existing sheet too
+            let n = um.get_model().workbook.worksheets.len() as u32;
+            if um.get_selected_sheet() >= n {
+                ds.push(Disagreement {
+                    sig: format!("getter-selected-sheet-out-of-range after={}", last.map(|o| o.kind()).unwrap_or("seed")),
+                    case: case.clone(),
+                    detail: format!("get_selected_sheet() = {} with {} sheets", um.get_selected_sheet(), n),
+                });
+            }
+            let k = key_of(&um, word, &pushed);
+            (ds, Some(k))
+        }
+    }
+}
+
+pub fn run(run: &mut Run) {
+    let thorough = run.tier.thorough();
+    let alpha = alphabet(thorough);
+    let max_depth = if thorough { 4 } else { 3 };
+    let max_states = if thorough { 300_000 } else { 60_000 };
+    let seeds: Vec<&'static str> = vec!["empty", "basic"];
+    let mut seen: HashSet<u128> = HashSet::new();
+    let mut frontier: VecDeque<(&'static str, Vec<Op>)> = VecDeque::new();
+    for sd in &seeds {
+        let (ds, k) = check(sd, &[]);
+        run.add_all(ds);
+        if let Some(k) = k {
+            seen.insert(k);
+        }
+        frontier.push_back((sd, vec![]));
+    }
+    let mut depth_done = 0;
+    let mut closed = false;
+    for depth in 1..=max_depth {
+        let level: Vec<(&'static str, Vec<Op>)> = frontier.drain(..).collect();
+        if level.is_empty() {
+            closed = true;
+            break;
+        }
+        // expand every state of this level by every operation (units = states)
+        let res = crate::env::par_units(level.len(), |u| {
+            let (seed, word) = &level[u];
+            let mut out = vec![];
+            for op in &alpha {
+                let mut w = word.clone();
+                w.push(op.clone());
+                let (ds, k) = check(seed, &w);
+                out.push((w, ds, k));
+            }
+            out
+        });
+        for (u, r) in res.into_iter().enumerate() {
+            match r {
+                Ok(outs) => {
+                    for (w, ds, k) in outs {
+                        run.transitions += 1;
+                        run.evaluations += 1;
+                        run.traces += 1;
+                        let bad = !ds.is_empty();
+                        run.add_all(ds);
+                        if let Some(k) = k {
+                            // states that already violate are not expanded further (their successors inherit the damage)
+                            if seen.insert(k) && !bad && seen.len() <= max_states {
+                                frontier.push_back((level[u].0, w));
+                            }
+                        }
+                    }
+                }
+                Err(e) => run.machinery_errors.push(e),
+            }
+        }
+        depth_done = depth;
+        if seen.len() > max_states {
+            run.extra.insert("state_cap_reached_at_depth".into(), json!(depth));
+            break;
+        }
+        if run.elapsed() > if thorough { 1500.0 } else { 60.0 } {
+            run.cap_hit = Some(format!("wall clock at BFS depth {}", depth));
+            break;
+        }
+    }
+    run.states = seen.len() as u64;
+    run.nontrivial = seen.len() as u64;
+    run.distinct_outcomes = seen.len() as u64;
+    run.exhaustive = true;
+    run.bound = json!({"alphabet_size": alpha.len(), "bfs_depth_completed": depth_done, "frontier_left": frontier.len(), "closed": closed,
+        "seeds": seeds, "max_states": max_states, "hash_seed": crate::env::hash_seed()});
+    run.rule = "explicit-state breadth-first search: a state is the shortest history reaching it, deduplicated by canonical key (hash of the whole Workbook incl. views + undo/redo depths + the recording operations on the stacks); every transition calls the real UserModel method on a freshly rebuilt object (failed calls are transitions too); the selection invariant is evaluated on the raw view structures in every state. states = distinct keys; exhaustive within the completed BFS depth".into();
+    run.sample(hist::case_json("empty", &[alpha[0].clone(), alpha[15].clone(), alpha[2].clone()]));
+    run.sample(hist::case_json("basic", &[alpha[9].clone(), alpha[33].clone()]));
+    run.sample(hist::case_json("empty", &[alpha[17].clone(), alpha[19].clone(), alpha[22].clone()]));
+    run.assume("states that violate the invariant are reported and not expanded further");
+}
+
+pub fn replay(case: &Value) -> Vec<Disagreement> {
+    match hist::case_parse(case) {
+        Some((seed, ops)) => check(hist::seed_name(&seed), &ops).0,
+        None => vec![],
+    }
 }
